@@ -3,7 +3,9 @@ C10 — the FQN scope provider resolves only genuine qualified names.
 
 symx runs the real `textx.scoping.providers.FQN.__call__` on real loaded
 models whose object names and the 1..3 parts of the reference name are opaque
-symbolic names (equality decided by z3).  Assumption (from the property):
+symbolic names (equality decided by z3); the reference carries the target type
+the live metamodel gives the attribute (once- and twice-assigned reference
+attributes), the oracle the type written in the grammar.  Assumption (from the property):
 sibling names are unique.  On every path the result is compared with the
 reference semantics as a z3 validity query:
 
@@ -32,7 +34,8 @@ KNOWN = 'C10-parent-and-reference-walk'
 GRAMMAR = """
 Model: packages+=Package;
 Package: 'package' name=ID '{' (classes+=Class | packages+=Package)* '}';
-Class: 'class' name=ID ('extends' base=[Class:FQN])? ('uses' uses=[Class:FQN])? ';';
+Class: 'class' name=ID ('extends' base=[Class:FQN])? ('uses' uses=[Class:FQN])?
+       ('implements' impls+=[Class:FQN] (',' impls+=[Class:FQN])*)? ';';
 FQN: ID('.'ID)*;
 """
 MODELS = [
@@ -160,14 +163,16 @@ def agrees(got, sem):
 
 
 def obligation(item):
-    mi, k, timeout_ms, known_ids = item
+    mi, k, timeout_ms, known_ids = item[:4]
+    attr_name = item[4] if len(item) > 4 else 'uses'
     from textx.model import ObjCrossRef
     import textx.scoping.providers as P
     mm, m = load(MODELS[mi])
     objs = named_objects(m)
     orig = [o.name for o in objs]
     prov = P.FQN()
-    cls = mm['Class']
+    cls = mm['Class']                       # the target type written in the grammar: [Class:FQN]
+    live_cls = mm['Class']._tx_attrs[attr_name].cls     # the type textX gives the reference (ObjCrossRef.cls)
     res = {'model': mi, 'parts': k, 'paths': 0, 'queries': {'sat': 0, 'unsat': 0, 'unknown': 0},
            'solver_s': 0.0, 'violations': [], 'known': {}, 'validated': 0, 'discharged': 0,
            'unknown': 0, 'unsupported': None}
@@ -187,8 +192,8 @@ def obligation(item):
             for o, n in zip(objs, names):
                 o.name = n
             parts = [SymName('p%d' % j) for j in range(k)]
-            cref = ObjCrossRef(SymFQN(parts), cls, 0, None, 'FQN')
-            got = prov(start, type(start)._tx_attrs['uses'], cref)
+            cref = ObjCrossRef(SymFQN(parts), live_cls, 0, None, 'FQN')
+            got = prov(start, type(start)._tx_attrs[attr_name], cref)
             s_ok = agrees(got, strict(start, parts, cls))
             v, mdl = c.must(s_ok)
             if v == 'unsat':
@@ -223,7 +228,7 @@ def obligation(item):
                 res['unknown'] += 1
             else:
                 cn, cp = out[1]
-                bad, detail = replay_concrete(mi, si, cn, cp)
+                bad, detail = replay_concrete(mi, si, cn, cp, attr_name)
                 res['validated'] += 1
                 if not bad:
                     res.setdefault('mismatch', []).append({'names': cn, 'ref': cp, 'detail': detail})
@@ -233,7 +238,7 @@ def obligation(item):
                                                     'ref': '.'.join(cp), 'detail': detail})
                 elif len(res['violations']) < 3:
                     res['violations'].append({'model': mi, 'start': si, 'names': cn, 'ref': cp,
-                                              'detail': detail})
+                                              'attr': attr_name, 'detail': detail})
     return res
 
 
@@ -250,7 +255,7 @@ def concretise(mdl, names, parts):
     return [nm(n.t) for n in names], [nm(p.t) for p in parts]
 
 
-def replay_concrete(mi, si, cnames, cparts):
+def replay_concrete(mi, si, cnames, cparts, attr_name='uses'):
     """on a fresh real model with concrete names: does FQN differ from strict?"""
     from textx.model import ObjCrossRef
     import textx.scoping.providers as P
@@ -260,15 +265,16 @@ def replay_concrete(mi, si, cnames, cparts):
         o.name = n
     start = objs[si]
     cls = mm['Class']
-    cref = ObjCrossRef('.'.join(cparts), cls, 0, None, 'FQN')
-    got = P.FQN()(start, type(start)._tx_attrs['uses'], cref)
+    cref = ObjCrossRef('.'.join(cparts), mm['Class']._tx_attrs[attr_name].cls, 0, None, 'FQN')
+    got = P.FQN()(start, type(start)._tx_attrs[attr_name], cref)
     s = [t for t, c in strict(start, cparts, cls) if c is True]
     le = [t for t, c in lenient(start, cparts, cls) if c is True]
     exp = s[0] if s else None
     lexp = le[0] if le else None
     idx = lambda o: None if o is None else objs.index(o)   # noqa: E731
     detail = {'got': idx(got), 'strict': idx(exp), 'explained_by_lenient': got is lexp,
-              'names': cnames, 'reference': '.'.join(cparts)}
+              'names': cnames, 'reference': '.'.join(cparts), 'attribute': attr_name,
+              'live_target_type': mm['Class']._tx_attrs[attr_name].cls.__name__}
     return got is not exp, detail
 
 
@@ -279,7 +285,9 @@ def main():
     quick = chk.tier == 'quick'
     nm = 3 if quick else len(MODELS)
     timeout_ms = 20000 if quick else 120000
-    items = [(mi, k, timeout_ms, sorted(chk.known_ids)) for mi in range(nm) for k in (1, 2, 3)]
+    # 'uses' is assigned once, 'impls' several times in one rule (same target type both times)
+    items = [(mi, k, timeout_ms, sorted(chk.known_ids), an) for mi in range(nm) for k in (1, 2, 3)
+             for an in ('uses', 'impls')]
     results = pmap(obligation, items)
     chk.cov['functions_encoded'] = src_hash(P.FQN.__call__, M.textx_isinstance)
     chk.cov['bounds'] = {'models': nm, 'name_parts': [1, 2, 3], 'named_objects_max': 8,
@@ -325,4 +333,4 @@ def main():
 
 
 def replay(data):
-    return replay_concrete(data['model'], data['start'], data['names'], data['ref'])
+    return replay_concrete(data['model'], data['start'], data['names'], data['ref'], data.get('attr', 'uses'))
